@@ -20,6 +20,14 @@ pub struct Send {
 
 #[derive(Debug, Clone, Serialize, Deserialize)]
 pub struct Scenario {
+    /// > 0: the server also has a TCP health-check port, and before every step this many TCP connections are made to
+    /// it and left pending while the datagrams of the step arrive
+    #[serde(default)]
+    pub health_burst: u8,
+    /// > 0: the server's status_interval in milliseconds; before every step the server idles for three such intervals
+    /// (statistics timer, and whatever else an implementation hangs on that interval, gets to fire)
+    #[serde(default)]
+    pub interval_ms: u16,
     /// serve on the IPv6 loopback
     #[serde(default)]
     pub ipv6: bool,
@@ -48,7 +56,17 @@ pub struct Sent {
     pub wellformed: Option<ReqInfo>,
 }
 
+/// source ports some servers treat specially (amplification reflectors, privileged, extremes)
+pub const SPECIAL_PORTS: [u16; 12] = [53, 123, 1900, 5353, 11211, 1, 7, 19, 161, 1023, 1024, 65_535];
+
 pub fn materialize(lab: &Lab, step: &[Send], nsocks: usize) -> Vec<Sent> {
+    materialize_special(lab, step, nsocks, 0)
+}
+
+/// sock 200 + k addresses the client socket bound to SPECIAL_PORTS[k] (appended to the lab's sockets after the first
+/// `nsocks`), when `special` such sockets exist
+pub fn materialize_special(lab: &Lab, step: &[Send], nsocks: usize, special: usize) -> Vec<Sent> {
+    let _ = lab;
     step.iter()
         .map(|s| {
             let bytes = s.d.bytes(&lab.srv);
@@ -57,7 +75,14 @@ pub fn materialize(lab: &Lab, step: &[Send], nsocks: usize) -> Vec<Sent> {
                 ReqClass::WellFormed(i) if in_size_range(bytes.len()) => Some(i),
                 _ => None,
             };
-            Sent { sock: if s.sock == 255 { PORT0 } else { s.sock as usize % nsocks }, bytes, family: s.d.family(), standard, wellformed }
+            let sock = if s.sock == 255 {
+                PORT0
+            } else if special > 0 && (200..255).contains(&s.sock) {
+                nsocks + (s.sock as usize - 200) % special
+            } else {
+                s.sock as usize % nsocks
+            };
+            Sent { sock, bytes, family: s.d.family(), standard, wellformed }
         })
         .collect()
 }
@@ -69,7 +94,7 @@ pub fn sock_strategy(n: u8) -> impl Strategy<Value = u8> {
 
 /// one in `w + 1` datagrams comes from source port 0
 pub fn sock_strategy_w(n: u8, w: u32) -> impl Strategy<Value = u8> {
-    prop_oneof![w => 0u8..n, 1 => Just(255u8)]
+    prop_oneof![w => 0u8..n, 1 => Just(255u8), w / 10 + 1 => 200u8..212]
 }
 
 fn batch_size_strategy() -> impl Strategy<Value = u8> {
@@ -91,7 +116,7 @@ fn c02_scenario(fault: bool) -> impl Strategy<Value = Scenario> {
         prop_oneof![2 => 1usize..=8, 3 => 1usize..=70, 1 => 64usize..=130],
     );
     (seed32(), batch_size_strategy(), if fault { (1u8..=50).boxed() } else { Just(0u8).boxed() }, proptest::collection::vec(step, 1..=6))
-        .prop_map(|(seed, batch_size, fault, steps)| Scenario { ipv6: false, seed, batch_size, fault, stats: false, steps })
+        .prop_map(|(seed, batch_size, fault, steps)| Scenario { health_burst: 0, interval_ms: if seed.0[31] % 25 == 0 { 20 + (seed.0[30] % 3) as u16 * 10 } else { 0 }, ipv6: false, seed, batch_size, fault, stats: false, steps })
 }
 
 /// one-to-one matching of the replies on one socket to that socket's own requests under verify_strict
@@ -220,6 +245,13 @@ fn c02_fault_step(ctx: &mut Ctx, lab: &Lab, o: &StepObs, tally: &mut (u64, u64))
     let nsocks = o.res.replies.len();
     for sock in 0..nsocks {
         let mine: Vec<&Sent> = o.sent.iter().filter(|s| s.sock == sock && s.wellformed.is_some()).collect();
+        // a deliberately invalid response takes the place of the valid one: never more datagrams than requests
+        if o.res.replies[sock].len() > mine.len() {
+            return ctx.fail(
+                "fault-more-replies-than-requests",
+                format!("fault_percentage {}: socket {} sent {} answerable requests and received {} datagrams (batch_size {})", lab.cfg.fault, sock, mine.len(), o.res.replies[sock].len(), lab.cfg.batch_size),
+            );
+        }
         for r in &o.res.replies[sock] {
             ctx.eval();
             tally.0 += 1;
@@ -247,7 +279,7 @@ fn c02_fault_step(ctx: &mut Ctx, lab: &Lab, o: &StepObs, tally: &mut (u64, u64))
 
 fn c07_scenario() -> impl Strategy<Value = Scenario> {
     let step = vec_of((sock_strategy(32), any_dgram()).prop_map(|(sock, d)| Send { sock, d }).boxed(), prop_oneof![3 => 1usize..=12, 2 => 1usize..=70]);
-    (seed32(), batch_size_strategy(), proptest::collection::vec(step, 1..=3)).prop_map(|(seed, batch_size, steps)| Scenario { ipv6: false, seed, batch_size, fault: 0, stats: false, steps })
+    (seed32(), batch_size_strategy(), proptest::collection::vec(step, 1..=3), prop_oneof![3 => Just(0u8), 1 => 1u8..=50]).prop_map(|(seed, batch_size, steps, fault)| Scenario { health_burst: 0, interval_ms: 0, ipv6: false, seed, batch_size, fault, stats: false, steps })
 }
 
 fn len_class(l: usize) -> &'static str {
@@ -279,6 +311,24 @@ fn c07_step(ctx: &mut Ctx, lab: &Lab, o: &StepObs) -> Res {
             }
         }
         if replies.is_empty() {
+            continue;
+        }
+        if lab.cfg.fault > 0 {
+            // deliberately invalid replies may lack the nonce echo or be unparseable: account by count and size only.
+            // A deliberately invalid reply REPLACES the valid one.
+            let mut cl: Vec<usize> = mine.iter().filter(|s| s.wellformed.is_some()).map(|s| s.bytes.len()).collect();
+            let mut rl: Vec<usize> = replies.iter().map(|r| r.len()).collect();
+            if rl.len() > cl.len() {
+                return ctx.fail("reply-to-non-request|fault-injection-on", format!("fault_percentage {}: socket {} sent {} well-formed 1024..=1500-byte requests and received {} datagrams", lab.cfg.fault, sock, cl.len(), rl.len()));
+            }
+            rl.sort_unstable_by(|a, b| b.cmp(a));
+            cl.sort_unstable_by(|a, b| b.cmp(a));
+            for (r, c) in rl.iter().zip(cl.iter()) {
+                if r > c {
+                    return ctx.fail("amplification|fault-injection-on", format!("fault_percentage {}: a reply of {} bytes, largest unmatched request {} bytes", lab.cfg.fault, r, c));
+                }
+            }
+            ctx.class("c07:fault-injection-on");
             continue;
         }
         // candidates: well-formed, in-range requests of this socket, grouped by (protocol, nonce)
@@ -353,7 +403,7 @@ fn c08_scenario() -> impl Strategy<Value = Scenario> {
         })
     });
     (seed32(), batch_size_strategy(), prop_oneof![2 => Just(0u8), 1 => 1u8..=50], prop::bool::weighted(0.06), proptest::collection::vec(step, 1..=4))
-        .prop_map(|(seed, batch_size, fault, stats, steps)| Scenario { ipv6: false, seed, batch_size, fault, stats, steps })
+        .prop_map(|(seed, batch_size, fault, stats, steps)| Scenario { health_burst: 0, interval_ms: 0, ipv6: false, seed, batch_size, fault, stats, steps })
 }
 
 // ------------------------------------------------------------------------------------------------
@@ -373,8 +423,8 @@ fn c09_scenario() -> impl Strategy<Value = Scenario> {
     ];
     let nsock = 2u8..=48;
     (seed32(), batch_size_strategy(), nsock).prop_flat_map(move |(seed, batch_size, nsock)| {
-        let step = vec_of((prop_oneof![30 => 0..nsock, 1 => Just(255u8)], req.clone()).prop_map(|(sock, d)| Send { sock, d }).boxed(), prop_oneof![2 => 1usize..=6, 3 => 2usize..=70, 1 => 60usize..=130]);
-        (Just(seed), Just(batch_size), proptest::collection::vec(step, 1..=4), prop::bool::weighted(0.25)).prop_map(|(seed, batch_size, steps, ipv6)| Scenario { ipv6, seed, batch_size, fault: 0, stats: false, steps })
+        let step = vec_of((prop_oneof![30 => 0..nsock, 1 => Just(255u8), 3 => 200u8..212], req.clone()).prop_map(|(sock, d)| Send { sock, d }).boxed(), prop_oneof![2 => 1usize..=6, 3 => 2usize..=70, 1 => 60usize..=130]);
+        (Just(seed), Just(batch_size), proptest::collection::vec(step, 1..=4), prop::bool::weighted(0.25)).prop_map(|(seed, batch_size, steps, ipv6)| Scenario { health_burst: if seed.0[29] % 16 == 0 { 70 } else if seed.0[29] % 16 == 1 { 3 } else { 0 }, interval_ms: if seed.0[31] % 25 == 1 { 25 } else { 0 }, ipv6, seed, batch_size, fault: 0, stats: false, steps })
     })
 }
 
@@ -453,7 +503,14 @@ fn c09_step(ctx: &mut Ctx, lab: &Lab, o: &StepObs) -> Res {
 // ------------------------------------------------------------------------------------------------
 
 pub fn run_scenario(ctx: &mut Ctx, which: Which, sc: &Scenario) -> Res {
-    let cfg = LabCfg { seed: sc.seed.0.clone(), batch_size: sc.batch_size, fault: sc.fault, client_stats: sc.stats, ipv6: sc.ipv6 && ipv6_available(), ..Default::default() };
+    let mut cfg = LabCfg { seed: sc.seed.0.clone(), batch_size: sc.batch_size, fault: sc.fault, client_stats: sc.stats, ipv6: sc.ipv6 && ipv6_available(), ..Default::default() };
+    if sc.interval_ms > 0 {
+        cfg.status_interval = std::time::Duration::from_millis(sc.interval_ms as u64);
+    }
+    if sc.health_burst > 0 && !sc.ipv6 {
+        cfg.health_port = std::net::TcpListener::bind("127.0.0.1:0").ok().and_then(|l| l.local_addr().ok()).map(|a| a.port());
+    }
+    let health_port = cfg.health_port;
     if sc.ipv6 {
         ctx.class(if cfg.ipv6 { "ipv6-loopback" } else { "ipv6-unavailable" });
     }
@@ -466,9 +523,27 @@ pub fn run_scenario(ctx: &mut Ctx, which: Which, sc: &Scenario) -> Res {
         // shrinking a failing case: a wedged worker is recognised after 1 s instead of 5 s
         lab.patience = std::time::Duration::from_secs(1);
     }
+    // clients on well-known source ports (only where every port number is ours)
+    let special = if NET_ISOLATED.load(std::sync::atomic::Ordering::SeqCst) && !sc.ipv6 { lab.add_port_socks(&SPECIAL_PORTS) } else { 0 };
     let mut tally = (0u64, 0u64);
     for (k, step) in sc.steps.iter().enumerate() {
-        let sent = materialize(&lab, step, nsocks);
+        if sc.interval_ms > 0 {
+            let end = std::time::Instant::now() + std::time::Duration::from_millis(3 * sc.interval_ms as u64);
+            while std::time::Instant::now() < end {
+                if let Err(p) = lab.idle_pump(1) {
+                    return ctx.fail(format!("process-events-panic|{}", panic_site(&p)), p);
+                }
+            }
+            ctx.class("scenario:after-status-intervals");
+        }
+        let pending_health: Vec<std::net::TcpStream> = match health_port {
+            Some(hp) => (0..sc.health_burst).filter_map(|_| std::net::TcpStream::connect(("127.0.0.1", hp)).ok()).collect(),
+            None => vec![],
+        };
+        if !pending_health.is_empty() {
+            ctx.class("scenario:health-connections-pending");
+        }
+        let sent = materialize_special(&lab, step, nsocks, special);
         // keep oversized datagrams few so that nothing is dropped by the kernel
         let sends: Vec<(usize, Vec<u8>)> = sent.iter().map(|s| (s.sock, s.bytes.clone())).collect();
         let expect = sent.iter().filter(|s| s.standard.is_some() && s.sock != PORT0).count();
@@ -619,7 +694,7 @@ pub fn run(which: Which, ctx: &mut Ctx) -> Vec<Violation> {
                         let nonce = Hex(crate::refcrypto::sha512(&[b"grid", &[b], &(j as u32).to_le_bytes()])[..n].to_vec());
                         step.push(Send { sock: (j % 48) as u8, d: Dgram::Std(StdReq { ietf, words: 256 + (j as u16 * 7) % 120, nonce, srv: SrvOpt::Absent, vers: if ietf { vec![VER_DRAFT13] } else { vec![] } }) });
                     }
-                    Scenario { ipv6: false, seed: Hex(vec![b; 32]), batch_size: b, fault: 0, stats: false, steps: vec![step.clone(), step] }
+                    Scenario { health_burst: 0, interval_ms: 0, ipv6: false, seed: Hex(vec![b; 32]), batch_size: b, fault: 0, stats: false, steps: vec![step.clone(), step] }
                 },
                 |ctx, sc| run_scenario(ctx, Which::C02, sc),
             );
@@ -666,7 +741,7 @@ pub fn run(which: Which, ctx: &mut Ctx) -> Vec<Violation> {
                         let nonce = Hex(crate::refcrypto::sha512(&[b"nl", &(j as u32).to_le_bytes()])[..n].to_vec());
                         step.push(Send { sock: (j % 47 + 1) as u8, d: Dgram::Std(StdReq { ietf, words: 256, nonce, srv: SrvOpt::Absent, vers: if ietf { vec![VER_DRAFT13] } else { vec![] } }) });
                     }
-                    Scenario { ipv6: false, seed: Hex(vec![3; 32]), batch_size: 64, fault: 0, stats: false, steps: vec![step] }
+                    Scenario { health_burst: 0, interval_ms: 0, ipv6: false, seed: Hex(vec![3; 32]), batch_size: 64, fault: 0, stats: false, steps: vec![step] }
                 },
                 |ctx, sc| run_scenario(ctx, Which::C07, sc),
             );
@@ -692,7 +767,7 @@ pub fn run(which: Which, ctx: &mut Ctx) -> Vec<Violation> {
                 ctx,
                 "framelen-size-grid",
                 chunks.len() as u64,
-                |i| Scenario { ipv6: false, seed: Hex(vec![5; 32]), batch_size: 64, fault: 0, stats: false, steps: vec![chunks[i as usize].iter().enumerate().map(|(k, d)| Send { sock: k as u8, d: d.clone() }).collect()] },
+                |i| Scenario { health_burst: 0, interval_ms: 0, ipv6: false, seed: Hex(vec![5; 32]), batch_size: 64, fault: 0, stats: false, steps: vec![chunks[i as usize].iter().enumerate().map(|(k, d)| Send { sock: k as u8, d: d.clone() }).collect()] },
                 |ctx, sc| run_scenario(ctx, Which::C07, sc),
             );
             if v2.is_empty() && ctx.shard == 0 {
